@@ -10,6 +10,8 @@ import (
 	"bytes"
 	"errors"
 	"fmt"
+	"os"
+	"os/exec"
 	"reflect"
 	"strings"
 
@@ -179,6 +181,49 @@ func subjects(thorough bool) []subject {
 	add("plain/googlev1/LegacyPlain-empty", clsV1, func() any { return &LegacyPlain{} })
 	add("plain/googlev1/LegacyBare", clsV1, func() any { return &LegacyBare{Name: ptr("bare"), N: ptr(int32(300))} })
 	return out
+}
+
+// racePass: free-running complement under the race detector (the cooperative scheduler's hand-offs are
+// happens-before edges, and plain memory shared between goroutines has no scheduling point at all): goroutines
+// classify, clone, compare and query messages of several runtimes at the same time.
+func racePass(r *ev.Run) {
+	if os.Getenv("VERIF_SKIP_RACE") != "" {
+		r.Set("race_pass", map[string]any{"sampling": true, "skipped": true})
+		return
+	}
+	cmd := exec.Command("go", "test", "-race", "-count=1", "-vet=off", "./checks/c15race", "-run", "TestC11RacePass", "-v", "-args", "-iters", ev.Pick(r, "300", "3000"))
+	cmd.Dir = ev.VerifDir() + "/mc"
+	cmd.Env = append(os.Environ(), "GOFLAGS=-mod=mod", "GOPROXY=off", "GOSUMDB=off", "GOTOOLCHAIN=local")
+	out, err := cmd.CombinedOutput()
+	s := string(out)
+	res := map[string]any{"sampling": true, "cmd": strings.Join(cmd.Args, " ")}
+	switch {
+	case strings.Contains(s, "DATA RACE"):
+		rep := s[strings.Index(s, "WARNING: DATA RACE"):]
+		if len(rep) > 3000 {
+			rep = rep[:3000]
+		}
+		r.Fail("C11/race-detector-report", "free-running -race pass", map[string]any{"report": rep})
+		res["result"] = "DATA RACE"
+	case strings.Contains(s, "DISPATCH-FAILURE"):
+		i := strings.Index(s, "DISPATCH-FAILURE")
+		r.Fail("C11/race-pass/wrong-answer", "free-running -race pass", map[string]any{"report": s[i:min(len(s), i+800)]})
+		res["result"] = "wrong answer"
+	case err != nil:
+		tail := s
+		if len(tail) > 1200 {
+			tail = tail[len(tail)-1200:]
+		}
+		r.Internal("race pass could not run: %v: %s", err, tail)
+	default:
+		res["result"] = "no race reported"
+		for _, l := range strings.Split(s, "\n") {
+			if strings.HasPrefix(l, "RACEPASS ") {
+				res["summary"] = l
+			}
+		}
+	}
+	r.Set("race_pass", res)
 }
 
 // textStub implements encoding.TextMarshaler only.
@@ -441,7 +486,9 @@ func main() {
 			uf("Clone", fmt.Sprintf("clone=%v %s (want nil)", c, p))
 		}
 		var eq bool
-		if p := guard(func() { eq = csproto.Equal(u.v, &timestamppb.Timestamp{}) || csproto.Equal(&timestamppb.Timestamp{}, u.v) || csproto.Equal(u.v, u.v) }); p != "" || eq {
+		if p := guard(func() {
+			eq = csproto.Equal(u.v, &timestamppb.Timestamp{}) || csproto.Equal(&timestamppb.Timestamp{}, u.v) || csproto.Equal(u.v, u.v)
+		}); p != "" || eq {
 			uf("Equal", fmt.Sprintf("equal=%v %s (want false)", eq, p))
 		}
 		var mt csproto.MessageType
@@ -538,6 +585,10 @@ func main() {
 		r.States(st.Points)
 		r.Transitions(st.Points)
 		r.AddTo("schedule_executions/"+sc.name, st.Execs)
+		if st.Diverged > 0 {
+			// not a verdict by itself: the free-running race pass below decides whether the hidden state is a race
+			r.Cap(fmt.Sprintf("scenario %s: %d executions did not reproduce their prefix (%s): the code under test keeps state across executions outside the scheduler's view; exploration of this scenario is incomplete", sc.name, st.Diverged, st.DivergedExample))
+		}
 		for sig, n := range st.FailsBySig {
 			x := st.FailExample[sig]
 			tr := vsync.RunOne(x.Choices(), mk)
@@ -549,6 +600,7 @@ func main() {
 		}
 	}
 	vsync.ResetMaps()
+	racePass(r)
 	r.Evals(evals)
 	r.Nontrivial(nontr)
 	r.Sample(map[string]any{"subject": subs[0].name, "functions": "MsgType, Marshal, Size, Unmarshal x4 directions, GrpcCodec, Clone, MarshalText, Reset, Equal(all ordered pairs)"})
